@@ -123,7 +123,7 @@ class CommandLine(Harness):
         return {'form': self.form, 'nport': self.nport, 'ipv': self.ipv}
 
     def inputs(self):
-        return {'host': zx.fresh_str('h', 2, HOSTCH), 'pd': sym_port(self.nport) if self.nport else ''}
+        return {'host': zx.fresh_str('h', 2, HOSTCH), 'pd': sym_port(self.nport) if self.nport else '', 'dp': zx.fresh_int('dp', 1, 65535)}
 
     def run(self, M, inp):
         if zx.active():
@@ -143,6 +143,15 @@ class CommandLine(Harness):
         elif self.form == 'v6 -p':
             vals['host'] = 'fe80::1'
             vals['oport'] = z_int(pd)
+        elif self.form == '[v6] -p':
+            vals['host'] = '[fe80::1]'
+            vals['oport'] = z_int(pd)
+        elif self.form == 'host:port -p':
+            vals['host'] = h + ':' + pd
+            vals['oport'] = inp['dp']
+        elif self.form == '[v6]:port -p':
+            vals['host'] = '[fe80::1]:' + pd
+            vals['oport'] = inp['dp']
         # the order in which -4/-6 were given (argv order) is what "in the requested order" refers to
         for ch in self.ipv:
             args.append('-' + ch)
@@ -167,6 +176,7 @@ class CommandLine(Harness):
         port = z_int(pd) if self.nport else 22
         valid = s_and(port >= 1, port <= 65535)
         exp_host = h if not self.form.startswith(('[v6]', 'v6')) else 'fe80::1'
+        # a target that carries its own port keeps it when -p is also given (-p is the default, as in a targets file)
         if 'rejected' in obs:
             yield 'only-invalid-ports-rejected', s_not(valid)
             yield 'rejected-before-any-connection', obs['sockets'] == 0
@@ -284,8 +294,8 @@ class Resolve(Harness):
         net = AE.FakeNet([AE.Conn([]) for _ in range(4)], addrinfo=answer)
         out = M.outputbuffer.OutputBuffer()
         with AE.patched(M.ssh_socket, socket=net):
-            s = M.ssh_socket.SSH_Socket(out, self.host, inp['port'], list(self.pref))
-            err = guarded(s.connect)
+            s = guarded(M.ssh_socket.SSH_Socket, out, self.host, inp['port'], list(self.pref))
+            err = s if isinstance(s, Exc) else guarded(s.connect)
         return {'err': err, 'resolved': net.resolved, 'dialled': [(c.family, c.connected_to) for c in net.made], 'answer': [(f, a[4][0]) for f, a in zip(fams, answer)]}
 
     def check(self, inp, obs):
@@ -364,6 +374,97 @@ class Label(Harness):
         yield 'json-target', obs['json'] == host + ':' + pd
 
 
+class MainRun(Harness):
+    """real main(): stubbed argparse/open -> real process_commandline -> real target loop -> real target_worker_thread / audit() -> real SSH_Socket on a
+    recording network.  The (host, port) pairs handed to the resolver and dialled, in target order, equal the targets as written (one worker at a time)."""
+    prop, ob = PROP, 'O5'
+    width = 64
+
+    def __init__(self, shape, with_p, nport=2):
+        self.shape, self.with_p, self.nport = tuple(shape), with_p, nport
+        self.name = 'mainrun-%s-%s-d%d' % ('_'.join(shape), 'p' if with_p else 'nop', nport)
+
+    def params(self):
+        return {'shape': list(self.shape), 'with_p': self.with_p, 'nport': self.nport}
+
+    def inputs(self):
+        n = len(self.shape)
+        inp = {'hosts': [zx.fresh_str('h%d' % i, 2, ((0x61, 0x7A),)) for i in range(n)],
+               'ports': [zx.fresh_str('p%d' % i, self.nport, DIG) for i in range(n)], 'dp': zx.fresh_int('dp', 1, 65535)}
+        if zx.active():
+            for p_ in inp['ports']:
+                v = z_int(p_)
+                zx.cur().assume(s_and(v >= 1, v <= 65535))
+        return inp
+
+    def expected(self, inp):
+        exp = []
+        for kind, h, p in zip(self.shape, inp['hosts'], inp['ports']):
+            if kind in ('host', 'cmd-host'):
+                exp.append((h, None))
+            elif kind in ('host:port', 'padded', 'cmd-host:port'):
+                exp.append((h, p))
+        return exp
+
+    def run(self, M, inp):
+        if zx.active():
+            zx.cur().stdout = []
+        single = self.shape[0].startswith('cmd-')
+        vals = {}
+        if single:
+            h, p = inp['hosts'][0], inp['ports'][0]
+            vals['host'] = h if self.shape[0] == 'cmd-host' else h + ':' + p
+            argv = ['x']
+        else:
+            lines = []
+            for kind, h, p in zip(self.shape, inp['hosts'], inp['ports']):
+                lines.append({'blank': '\n', 'host': h + '\n', 'host:port': h + ':' + p + '\n', 'padded': ' ' + h + ':' + p + ' \n'}[kind])
+            vals['targets'] = 'targets.txt'
+            vals['threads'] = 1
+            argv = ['-T', 'targets.txt']
+
+            class F:
+                def __enter__(self_): return self_
+                def __exit__(self_, *a): return False
+                def readlines(self_): return list(lines)
+        if self.with_p:
+            vals['oport'] = inp['dp']
+        vals['skip_rate_test'] = True
+        net = AE.FakeNet([])
+        from props.c08 import StubConcurrent
+        sc = StubConcurrent(list(range(len(self.shape))))
+        import io, contextlib, sys
+        old_argv = sys.argv
+        sys.argv = ['ssh-audit'] + argv
+        buf = io.StringIO()
+        try:
+            with AE.patched(M.ssh_audit, argparse=StubArgparse(vals), concurrent=sc), AE.patched(M.ssh_socket, socket=net), AE.patched(M.utils, ipaddress=AE.IpShim):
+                M.ssh_audit.__dict__['open'] = lambda *a, **k: F()
+                try:
+                    with contextlib.redirect_stdout(buf):
+                        r = guarded(M.ssh_audit.main)
+                finally:
+                    del M.ssh_audit.__dict__['open']
+        finally:
+            sys.argv = old_argv
+        return {'ret': r, 'resolved': [(h, p) for h, p, _ in net.resolved], 'dialled': [c.connected_to for c in net.made]}
+
+    def check(self, inp, obs):
+        r = obs['ret']
+        yield 'run-completes', not isinstance(r, Exc)
+        if isinstance(r, Exc):
+            return
+        exp = self.expected(inp)
+        dflt = inp['dp'] if self.with_p else 22
+        for what in ('resolved', 'dialled'):
+            got = obs[what]
+            ok = len(got) == len(exp)
+            if ok:
+                for g, (eh, ep) in zip(got, exp):
+                    ok = s_and(ok, g is not None and g[0] == eh, g is not None and g[1] == (z_int(ep) if ep is not None else dflt))
+            yield '%s==targets-as-written' % what, ok
+
+
 def tasks(tier):
     q = tier == 'quick'
     T = []
@@ -380,7 +481,7 @@ def tasks(tier):
         for np_ in ((1, 5) if q else (1, 2, 3, 4, 5)):
             T.append(Spelling('[v6]:port', nh, np_))
             T.append(Spelling('[v6compressed]:port', max(1, nh - 2), np_))
-    for form in ('host:port', 'host -p', '[v6]:port', 'v6 -p'):
+    for form in ('host:port', 'host -p', '[v6]:port', 'v6 -p', '[v6] -p', 'host:port -p', '[v6]:port -p'):
         for np_ in ((1, 4, 5, 6) if q else (1, 2, 3, 4, 5, 6)):
             T.append(CommandLine(form, np_))
     for ipv in ('', '4', '6', '46', '64'):
@@ -399,6 +500,13 @@ def tasks(tier):
     for hi in range(4):
         for np_ in ((2, 5) if q else (1, 2, 3, 4, 5)):
             T.append(Label(hi, np_))
+    for shape in ([('cmd-host',), ('cmd-host:port',), ('host:port', 'host'), ('host', 'host:port'), ('padded', 'blank', 'host')] if q else
+                  [('cmd-host',), ('cmd-host:port',), ('host:port', 'host'), ('host', 'host:port'), ('padded', 'blank', 'host'),
+                   ('host:port', 'host:port', 'host'), ('host', 'host', 'host:port'), ('host:port', 'blank', 'host', 'host')]):
+        for with_p in (False, True):
+            T.append(MainRun(shape, with_p, 2))
+    for shape in [('cmd-host:port',), ('host:port', 'host')]:
+        T.append(MainRun(shape, True, 5))
     return T
 
 
@@ -415,6 +523,8 @@ def harness_by_name(name, params):
         return Resolve(p['pref'], p['nans'], p.get('host', 'example'))
     if k == 'label':
         return Label(p['hi'], p['nport'])
+    if k == 'mainrun':
+        return MainRun(p['shape'], p['with_p'], p.get('nport', 2))
     raise KeyError(name)
 
 
